@@ -1482,3 +1482,75 @@ def record_stores(index, func, stmt):
         for idx, item in enumerate(val.elts):
             out.append(('%s[%d]' % (base, idx), item))
     return out
+
+
+def upward_walk(graph):
+    """An iterative walk up the tree:  v = self ; while ...: ... ;
+    v = v.parent.  Returns (var, loop head, advancing nodes) or None."""
+    for head in graph.nodes:
+        if head.kind != 'loop_head' or head.ast is None or \
+                not isinstance(head.ast, ast.While):
+            continue
+        body = loop_body_nodes(head)
+        adv = [n for n in body if n.kind == 'stmt' and
+               isinstance(n.ast, ast.Assign) and
+               isinstance(n.ast.targets[0], ast.Name) and
+               N.txt(n.ast.value) == '%s.parent' % n.ast.targets[0].id]
+        if not adv:
+            continue
+        var = adv[0].ast.targets[0].id
+        inits = [n for n in graph.nodes if n.kind == 'stmt' and
+                 isinstance(n.ast, ast.Assign) and
+                 N.txt(n.ast.targets[0]) == var and n not in body]
+        if not inits or any(N.txt(n.ast.value) != 'self' for n in inits):
+            continue
+        return var, head, adv
+    return None
+
+
+def walk_covers(graph, walk, applies):
+    """The walk applies ``applies(node)`` at every level from self to the
+    root: no way round the loop without applying and advancing, and the loop
+    is left only above the root (v falsy / None before the application, or
+    v.parent falsy / None after it).  Returns (ok, detail)."""
+    var, head, adv = walk
+    nz = N.Normaliser()
+    body = loop_body_nodes(head)
+    hits = [n for n in body if applies(n)]
+    if not hits:
+        return False, 'nothing applied inside the walk'
+    if find_path(head, [head], cut_node=lambda n: n in hits,
+                 follow_exc=False) is not None:
+        return False, 'a level can be passed without the application'
+    if find_path(head, [head], cut_node=lambda n: n in adv,
+                 follow_exc=False) is not None:
+        return False, 'a round of the walk does not advance to the parent'
+    def roots(edge_):
+        top = parent = False
+        for atom in nz.facts_of_edge(edge_):
+            key = atom.key
+            falsy = (key[0] == 'truth' and not key[2]) or (
+                key[0] == 'is' and key[2] == 'None' and key[3])
+            if falsy and key[1] == var:
+                top = True
+            if falsy and key[1] == '%s.parent' % var:
+                parent = True
+        return top, parent
+    for edge in loop_exit_edges(head):
+        if edge.kind == 'exc':
+            continue
+        before, parent = roots(edge)
+        at_root = before or parent
+        if not at_root:
+            # a break / return behind the root test
+            before = guarded_by(graph, edge.src,
+                                lambda e: roots(e)[0], start=head)
+            at_root = before or guarded_by(
+                graph, edge.src, lambda e: roots(e)[1], start=head)
+        if not at_root:
+            return False, 'the walk can be left below the root (%s)' % \
+                edge.src.text(40)
+        if not before and not guarded_by(
+                graph, edge.src, lambda e: e.src in hits, start=head):
+            return False, 'the last level is left before the application'
+    return True, 'applied at every level up to the root'
